@@ -6,3 +6,5 @@ git apply $S/patch.diff || exit 2
 cd /verif
 for p in "$@"; do ./check $p 2>&1 | tail -4; echo "rc=$?"; done
 git -C /repo checkout -- .
+# evidence written while a seeded change was applied is not a record of the unchanged tree: restore the committed files
+git -C /verif checkout -- evidence/ 2>/dev/null
